@@ -83,7 +83,19 @@ def run(ctx):
             r["l"] += off
         flagged += fl
     ctx.evaluations = len(trace)
-    # 5. coverage of the branches the property depends on
+    # 5. verdicts
+    for r in flagged:
+        line = trace[r["l"] - 1]
+        if r["verdict"] == "finding":
+            ctx.finding(r["tag"], line)
+        else:
+            vlib.write_ndjson(ctx.path("replay.ndjson"), [line])
+            ctx.violation(ctx.path("replay.ndjson"),
+                          "%s: case %s: code answered %s, model of the code says %s" %
+                          (r["verdict"], json.dumps({k: line[k] for k in ("mode", "addr", "res", "target", "rules", "origin", "okind",
+                                                                          "method", "acrm", "acrh", "hkind")}),
+                           json.dumps(r["got"]), json.dumps(r["expected"])))
+    # 6. coverage of the branches the property depends on
     def has_origin(r):
         return r["okind"] not in ("absent", "blank")
 
@@ -108,7 +120,7 @@ def run(ctx):
     }
     ctx.extra["branch_counts"] = cov
     dead = [k for k, v in cov.items() if v == 0]
-    if dead:
+    if dead and not ctx.violations:       # a violation already explains a dead branch; it must not become exit 2
         raise vlib.Infra("branches never exercised on the real code: %s" % ", ".join(dead))
     ctx.extra["distinct_nontrivial"] = len({json.dumps([r[k] for k in ("rules", "origin", "okind", "method", "acrm", "acrh", "hkind")])
                                             for r in trace if r["acao"] != "none" or (preflight(r) and has_origin(r))})
@@ -116,9 +128,13 @@ def run(ctx):
     ctx.sample(trace[0])
     ctx.sample(trace[len(cases) // 2])
     ctx.sample(trace[-1])
-    # 6. binding self-test: a corrupted observation must be flagged
-    victims = [r for r in trace if r["acao"] == "origin"][:1] + [r for r in trace if preflight(r) and r["status"] == 200][:1]
+    # 7. binding self-test: a corrupted observation must be flagged
+    bad_lines = {r["l"] for r in flagged}
+    good = [r for i, r in enumerate(trace) if i + 1 not in bad_lines]
+    victims = [r for r in good if r["acao"] == "origin"][:1] + [r for r in good if preflight(r) and r["status"] == 200][:1]
     if len(victims) != 2:
+        if ctx.violations:
+            return "violations found; binding self-test skipped for lack of accepted lines"
         raise vlib.Infra("self-test: no suitable recorded lines")
     bad0 = dict(victims[0], acao="none")
     bad1 = dict(victims[1], status=403)
@@ -128,18 +144,6 @@ def run(ctx):
     ctx.traces, ctx.events = tr_before, ev_before
     if sorted(r["l"] for r in sfl if r["verdict"] == "mismatch") != [2, 3]:
         raise vlib.Infra("binding self-test failed: corrupted lines not flagged: %s" % json.dumps(sfl)[:800])
-    # 7. verdicts
-    for r in flagged:
-        line = trace[r["l"] - 1]
-        if r["verdict"] == "finding":
-            ctx.finding(r["tag"], line)
-        else:
-            vlib.write_ndjson(ctx.path("replay.ndjson"), [line])
-            ctx.violation(ctx.path("replay.ndjson"),
-                          "%s: case %s: code answered %s, model of the code says %s" %
-                          (r["verdict"], json.dumps({k: line[k] for k in ("mode", "addr", "res", "target", "rules", "origin", "okind",
-                                                                          "method", "acrm", "acrh", "hkind")}),
-                           json.dumps(r["got"]), json.dumps(r["expected"])))
     ctx.assumptions += [
         "symbols a,b,q,* are concretised as the characters a,b,?,* by harness/cmd/cors; one representative per case/padding variant",
         "rule identity in a response is read from Access-Control-Max-Age / Access-Control-Expose-Headers values set by the driver",
